@@ -3,7 +3,8 @@
    Statements only; proofs in Proofs/ActionLog_proofs.v. *)
 From Coq Require Import ZArith List Bool.
 Import ListNotations.
-Require Import Grist.Model.ActionLog Grist.Proofs.ActionLog_proofs Grist.Proofs.ActionLog_calc Grist.Props.C01.
+Require Import Grist.Model.ActionLog Grist.Model.ActionLogEnc Grist.Proofs.ActionLog_proofs Grist.Proofs.ActionLog_calc
+  Grist.Proofs.ActionLogEnc_laws Grist.Props.C01.
 Open Scope Z_scope.
 
 (* Full statement, for a class `wf_events` of event lists: after the bundle has been undone, replaying its
@@ -28,6 +29,11 @@ Qed.
    document it gives the document the bundle produced. *)
 Theorem C03_redo_docs_calcs_partial : forall O, ValLaws O -> C03_statement O (docs_then_calcs O).
 Proof. intros O L s es s' out s0 _ Hok H Hu. exact (bundle_ok2_redo O L s es s' out s0 Hok H Hu). Qed.
+
+(* ... for the encoded values of the event-trace tie (see C01_undo_restores_encoded_values_partial). *)
+Theorem C03_redo_encoded_values_partial : forall tt, tt_ok tt = true ->
+  C03_statement (EOps tt) (docs_then_calcs (EOps tt)).
+Proof. intros tt H. apply C03_redo_docs_calcs_partial. apply EOps_laws. exact H. Qed.
 
 (* The stored actions of a sequence of doc actions replay to an equivalent document from any equivalent start
    (the lemma behind redo; also what a collaborator applying the same actions relies on). *)
